@@ -51,6 +51,7 @@ type batchSet struct {
 func genBatchProjects(root string, seed uint64, nProj int, tagProp string) ([]*Scenario, []batchLine, error) {
 	var scs []*Scenario
 	var lines []batchLine
+	classicDone, fertDone := false, false
 	for i := 0; i < nProj; i++ {
 		r := NewRng(mix(mix(seed, uint64(i)), hashStr(tagProp)))
 		p := defaultProfile()
@@ -96,6 +97,17 @@ func genBatchProjects(root string, seed uint64, nProj int, tagProp string) ([]*S
 			h := &sc.Soil.Horizons[0]
 			sc.PrivateTextureLike, sc.PrivateTexture = h.Texture, "XQ7"
 			h.Texture = "XQ7"
+		}
+		if !fertDone && i >= 1 && len(sc.OwnFertRows) == 0 {
+			// one project with a fertiliser table of its own (in its own parameter folder) that gives a fertiliser of its schedule
+			// other contents than the shipped table every other line runs with
+			fertDone = sc.redefineFertRow(NewRng(mix(mix(seed, uint64(i)), 1013)))
+		}
+		if !classicDone && i >= 2 && sc.Soil.CSV {
+			classicDone = true
+			// one project whose csv soil file keeps the columns of the classic file it was converted from (other numbers under
+			// other names): which column a run reads may not depend on anything but the documented names
+			sc.SoilClassicCols = true
 		}
 		sc.ResultFormat = 1
 		sc.DailyCols = pairDailyCols(sc.Soil.N())
